@@ -37,7 +37,7 @@ Qed.
    outermost first, then route level), the handler, and the exact reverse on the way out *)
 Theorem request_onion s host method path :
   let p' := fold_left apply_rewrite (s_pre s) path in
-  let t := select s host method p' in
+  let t := select s (fold_left apply_host (s_pre s) host) method p' in
   forallb passes (s_pre s) = true -> forallb passes (s_use s) = true -> forallb passes (t_chain t) = true ->
   request s host method path =
   (map Enter (ids (s_pre s)) ++ map Enter (ids (s_use s)) ++ map Enter (ids (t_chain t)) ++
@@ -55,7 +55,15 @@ Proof.
         end) ms p = fold_left apply_rewrite ms p).
   { induction ms as [|m r IH]; intros p H; [reflexivity|]. simpl in H. apply andb_true_iff in H as [Hm Hr].
     cbn [fold_left]. unfold passes in Hm. destruct (mw_kind_of m) eqn:Ek; try discriminate; apply IH; exact Hr. }
-  rewrite (Hreach (s_pre s) path Hp). fold p'. fold t.
+  assert (Hreachh : forall ms h, forallb passes ms = true ->
+     (fix reachh (ms : list mw) (h : Spec2.str) : Spec2.str :=
+        match ms with
+        | [] => h
+        | m :: r => match mw_kind_of m with MFail _ => h | _ => reachh r (apply_host h m) end
+        end) ms h = fold_left apply_host ms h).
+  { induction ms as [|m r IH]; intros h H; [reflexivity|]. simpl in H. apply andb_true_iff in H as [Hm Hr].
+    cbn [fold_left]. unfold passes in Hm. destruct (mw_kind_of m) eqn:Ek; try discriminate; apply IH; exact Hr. }
+  rewrite (Hreach (s_pre s) path Hp), (Hreachh (s_pre s) host Hp). fold p'. fold t.
   rewrite (onion_pass (t_chain t) _ Hc). cbn [fst snd].
   rewrite (onion_pass (s_use s) _ Hu). cbn [fst snd].
   rewrite (onion_pass (s_pre s) _ Hp). cbn [fst snd].
@@ -65,7 +73,7 @@ Qed.
 (* Pre runs before route selection: the route is chosen for the path AFTER all Pre rewrites *)
 Theorem pre_before_routing s host method path : forallb passes (s_pre s) = true ->
   exists tr, request s host method path =
-    run_mws (s_pre s) (run_mws (s_use s) (run_mws (t_chain (select s host method (fold_left apply_rewrite (s_pre s) path))) tr)).
+    run_mws (s_pre s) (run_mws (s_use s) (run_mws (t_chain (select s (fold_left apply_host (s_pre s) host) method (fold_left apply_rewrite (s_pre s) path))) tr)).
 Proof.
   intro Hp. eexists. unfold request.
   assert (Hreach : forall ms p, forallb passes ms = true ->
@@ -76,7 +84,15 @@ Proof.
         end) ms p = fold_left apply_rewrite ms p).
   { induction ms as [|m r IH]; intros p H; [reflexivity|]. simpl in H. apply andb_true_iff in H as [Hm Hr].
     cbn [fold_left]. unfold passes in Hm. destruct (mw_kind_of m) eqn:Ek; try discriminate; apply IH; exact Hr. }
-  rewrite (Hreach (s_pre s) path Hp). reflexivity.
+  assert (Hreachh : forall ms h, forallb passes ms = true ->
+     (fix reachh (ms : list mw) (h : Spec2.str) : Spec2.str :=
+        match ms with
+        | [] => h
+        | m :: r => match mw_kind_of m with MFail _ => h | _ => reachh r (apply_host h m) end
+        end) ms h = fold_left apply_host ms h).
+  { induction ms as [|m r IH]; intros h H; [reflexivity|]. simpl in H. apply andb_true_iff in H as [Hm Hr].
+    cbn [fold_left]. unfold passes in Hm. destruct (mw_kind_of m) eqn:Ek; try discriminate; apply IH; exact Hr. }
+  rewrite (Hreach (s_pre s) path Hp), (Hreachh (s_pre s) host Hp). reflexivity.
 Qed.
 
 (* ---------------- registration: snapshots *)
